@@ -850,7 +850,8 @@ pub fn c02(rep: &mut Rep, seed: u64) {
                     rep.evals += 1;
                     let ep = match energy_performance(&comps, w, k, area, lm) { Ok(e) => e, Err(_) => continue };
                     let r = match crate::refimpl::evaluate(&comps, w, k as f64, lm) { Ok(r) => r, Err(e) => { rep.fail("C02.reference", t, format!("{}: the crate returns a result where the equations cannot be evaluated: {}", sname, e)); continue } };
-                    rep.nontrivial += 1;
+                    // non-trivial: something is exported (the step A / step B weighting of exports, the averaging by source and k_exp are exercised)
+                    if ep.balance.exp.an > 0.0 { rep.nontrivial += 1; }
                     let mag: f64 = ep.balance_cr.values().map(|b| (b.used.epus_an + b.used.nepus_an + b.used.cgnus_an + b.prod.an) as f64).sum();
                     if let Some(what) = crate::refimpl::compare(&ep, &r, 3e-6 * mag) {
                         rep.fail("C02.equations", t, format!("{}, k_exp {}, area {}, load matching {}: {}", sname, k, area, lm, what));
